@@ -131,14 +131,14 @@ struct PlainKind { int64_t domain, code; };
 var PlainKind = Cello(PlainKind);
 static var PlainK11, PlainK12, PlainK21;
 /* ... and status codes: Int objects whose values agree in their low 32 bits (a facility in the high half), Strings in prefix relation */
-static var IntK7, IntK7a, IntK7b, IntK7c, StrKa, StrKb;
-#define NK 34
+static var IntK7, IntK7a, IntK7b, IntK7c, StrKa, StrKb, FltK1, FltK2, FltKnan;
+#define NK 37
 static int kind_sort(int i) { return i < 21 ? 0 : i < 23 ? 1 : 2; }
 static void run_pairs(void) {
   var K[NK] = { TypeError, ValueError, ClassError, IndexOutOfBoundsError, KeyError, OutOfMemoryError, IOError, FormatError, BusyError,
                 ResourceError, ProgramAbortedError, DivisionByZeroError, IllegalInstructionError, ProgramInterruptedError,
                 SegmentationError, ProgramTerminationError, UserErrA, UserErrB, UserErr, IOErrorRetry, IOKind, TryKindA, TryKindB, PlainK11, PlainK12, PlainK21,
-                IntK7, IntK7a, IntK7b, IntK7c, StrKa, StrKb, ThrowKindA, ThrowKindB };
+                IntK7, IntK7a, IntK7b, IntK7c, StrKa, StrKb, ThrowKindA, ThrowKindB, FltK1, FltK2, FltKnan };
   for (int fi = 0; fi < NK; fi++) for (int ti = 0; ti < NK; ti++) {
     /* kinds of different sorts meet as well: a type object as filter and a value object in flight (or the other way round) are
        simply different kinds - deciding that must not itself raise */
@@ -167,6 +167,7 @@ int main(int argc, char** argv) {
   ((struct PlainKind*)PlainK11)->domain = 1; ((struct PlainKind*)PlainK11)->code = 1; ((struct PlainKind*)PlainK12)->domain = 1; ((struct PlainKind*)PlainK12)->code = 2;
   ((struct PlainKind*)PlainK21)->domain = 2; ((struct PlainKind*)PlainK21)->code = 1;
   IntK7 = new_root(Int, $I(7)); IntK7a = new_root(Int, $I((1LL << 32) | 7)); IntK7b = new_root(Int, $I(7 - (1LL << 32))); IntK7c = new_root(Int, $I((1LL << 31) + 7));
+  FltK1 = new_root(Float, $F(1.0)); FltK2 = new_root(Float, $F(2.0)); FltKnan = new_root(Float, $F(0.0)); ((struct Float*)FltKnan)->val = 0.0 / 0.0;     /* (a not-a-number kind) */
   StrKa = new_root(String, $S("disk")); StrKb = new_root(String, $S("disk-full"));
   ThrowKindA = new_root(ThrowKind); ((struct ThrowKind*)ThrowKindA)->id = 1; ThrowKindB = new_root(ThrowKind); ((struct ThrowKind*)ThrowKindB)->id = 2;
   TryKindA = new_root(TryKind); ((struct TryKind*)TryKindA)->id = 1; TryKindB = new_root(TryKind); ((struct TryKind*)TryKindB)->id = 2;
